@@ -3,6 +3,7 @@ CONSTANTS
  Family = "carry"
  MaxMid = 11
  MaxTiny = 0
+ CarryTail = 2
  CarryLens = {16, 17, 18}
 INIT Init
 NEXT Next
